@@ -285,10 +285,16 @@ class ApplyROI(Command):
         for data in self.data_collection:
             for subset in data.subsets:
                 self.old_states[subset] = subset.subset_state
+        self.old_groups = self.data_collection.subset_groups
+        self.old_edit_subset = session.edit_subset_mode.edit_subset
 
         self.apply_func(self.roi)
 
     def undo(self, session):
+        for group in self.data_collection.subset_groups:
+            if group not in self.old_groups:
+                self.data_collection.remove_subset_group(group)
+
         for data in self.data_collection:
             for subset in data.subsets:
                 if subset not in self.old_states:
@@ -296,6 +302,8 @@ class ApplyROI(Command):
 
         for k, v in self.old_states.items():
             k.subset_state = v
+
+        session.edit_subset_mode.edit_subset = self.old_edit_subset
 
 
 class ApplySubsetState(Command):
@@ -320,6 +328,8 @@ class ApplySubsetState(Command):
         for data in self.data_collection:
             for subset in data.subsets:
                 self.old_states[subset] = subset.subset_state
+        self.old_groups = self.data_collection.subset_groups
+        self.old_edit_subset = session.edit_subset_mode.edit_subset
 
         mode = session.edit_subset_mode
         override_mode = self.extra.get('override_mode')
@@ -332,6 +342,10 @@ class ApplySubsetState(Command):
         mode.update(self.data_collection, self.subset_state, override_mode=override_mode)
 
     def undo(self, session):
+        for group in self.data_collection.subset_groups:
+            if group not in self.old_groups:
+                self.data_collection.remove_subset_group(group)
+
         for data in self.data_collection:
             for subset in data.subsets:
                 if subset not in self.old_states:
@@ -339,6 +353,8 @@ class ApplySubsetState(Command):
 
         for k, v in self.old_states.items():
             k.subset_state = v
+
+        session.edit_subset_mode.edit_subset = self.old_edit_subset
 
 
 class LinkData(Command):
